@@ -131,6 +131,7 @@ type CliWorld struct {
 	maxOpenLimit  []int64
 	GoAwaySent    []GoAwaySent
 	FrameSizeViol *Violation
+	wuChecked     int
 	allowedTable  int64
 }
 
@@ -912,6 +913,8 @@ func (w *CliWorld) applyFault(f Fault) {
 		w.c2s.WErrAt = w.c2s.Written + f.At
 	case "stall-c2s":
 		w.stallC2S = true
+	case "unstall-c2s":
+		w.stallC2S = false
 	case "flip":
 		w.s2c.FlipAt = append(w.s2c.FlipAt, [2]int64{w.s2c.Injected + f.At, 1 << (uint(f.At) % 8)})
 	case "close-peer":
